@@ -8,7 +8,7 @@
 from pymbolic.mapper.stringifier import (
     PREC_UNARY, PREC_LOGICAL_AND, PREC_LOGICAL_OR, PREC_COMPARISON, PREC_NONE
 )
-from pymbolic.primitives import FloorDiv, Remainder
+from pymbolic.primitives import FloorDiv, Remainder, Product, Quotient
 
 from loki.backend.pprint import Stringifier
 from loki.backend.style import FortranStyle
@@ -94,14 +94,10 @@ class FCodeMapper(LokiStringifyMapper):
             children = children[:-1]
         return self.parenthesize_if_needed(self.join(',', children), enclosing_prec, PREC_NONE)
 
-    # Suppress Pymbolics's conservative default bracketing by override
-    # the multiplicative primitives to exclude `Product` and
-    # `Quotient` nodes.
-    # This is done to suppress the default bracketing, which can cause
-    # round-off deviations for agressively optimising compilers. Since
-    # we explicitly handle bracketing in our expression nodes, we can
-    # drop this here... famous last words!
-    multiplicative_primitives = (FloorDiv, Remainder)
+    # The denominator of a quotient is put in parentheses if it is a product
+    # or quotient itself (``a / (b*c)``), unless it is one of the nodes that
+    # carry explicit parentheses from the source
+    multiplicative_primitives = (FloorDiv, Remainder, Product, Quotient)
 
 
 class FortranCodegen(Stringifier):
